@@ -76,6 +76,27 @@ def run(ctx):
         py = 'true' if s.s <= N // 2 else 'true-but-high-s'
         cases.append(('ecdsa_verify_rs %s %s %d %d' % (k_obj.public_byte.hex(), zh(z), s.r, s.s), py, True))
         cases.append(('der_dec %s' % s.as_der_encoded(include_hash_type=False).hex(), '%d %d' % (s.r, s.s), True))
+    # the DER encoder / decoder of the encoding module on structured (r, s): short values, top bit set (a 00 byte must be added),
+    # leading zero bytes (must be dropped), both 33-byte forms
+    from bitcoinlib.encoding import der_encode_sig, convert_der_sig
+    vals = [1, 0x7f, 0x80, 0xff, 0x100, 2**127, 2**128 - 1, 2**247 + 5, 2**248 - 1, 2**248, 2**255 - 1, 2**255, 2**255 + 12345, N - 1, N // 2, N // 2 + 1]
+    vals += [rng.randrange(1, N) for _ in range(8)] + [rng.randrange(1, 2**(8 * rng.randint(1, 31))) for _ in range(8)]
+    for _ in range(200 if T else 60):
+        r_, s_ = rng.choice(vals), rng.choice(vals)
+        try:
+            der = bytes(der_encode_sig(r_, s_))
+            py = der.hex()
+        except Exception as e:
+            der, py = None, 'none'
+        cases.append(('der_enc %d %d' % (r_, s_), py, True))
+        if der is not None:
+            ctx.evals += 1
+            try:
+                back = convert_der_sig(der)
+            except Exception as e:
+                back = 'raise:' + type(e).__name__
+            if back != '%064x%064x' % (r_, s_):
+                ctx.violation('convert_der_sig(der_encode_sig(r, s)) is not (r, s)', {'op': 'der_enc %d %d' % (r_, s_), 'observed': back})
     ctx.compare(cases, 'produced')
 
     # ---- the verifier is exact ----------------------------------------------------------------------------
